@@ -5,6 +5,11 @@
   image sizes, block lengths and overlaps; 2-D statements are products of the two independent axes.
 -/
 import Homonim.Lemmas.Geom
+import Mathlib.Tactic.Ring
+import Mathlib.Tactic.Linarith
+import Mathlib.Tactic.Positivity
+import Mathlib.Algebra.Order.Floor.Ring
+import Mathlib.Data.Rat.Floor
 
 namespace Homonim
 
@@ -275,5 +280,81 @@ example : (blocks1 ⟨1, 8, 20⟩ ⟨13, 4, 31⟩ 1 17 5 0).map (·.oout) = [⟨
 
 example : (0 : Int) < (⟨13, 4, 31⟩ : Axis).p ∧ (0 : Int) < (⟨1, 8, 20⟩ : Axis).p ∧
     (0:Int) ≤ 5 ∧ 5 < (⟨13, 4, 31⟩ : Axis).n := by decide
+
+/-! ### the block shape (`_auto_block_shape`): the block lengths `s` the theorems above quantify over -/
+
+/-- halving the longer side halves the area -/
+theorem halveLonger_area (h w : ℚ) : (halveLonger h w).1 * (halveLonger h w).2 = h * w / 2 := by
+  unfold halveLonger; split <;> simp <;> ring
+
+theorem halveLonger_le (h w : ℚ) (hh : 0 ≤ h) (hw : 0 ≤ w) :
+    0 ≤ (halveLonger h w).1 ∧ (halveLonger h w).1 ≤ h ∧ 0 ≤ (halveLonger h w).2 ∧ (halveLonger h w).2 ≤ w := by
+  unfold halveLonger
+  split
+  · exact ⟨by simp only; linarith, by simp only; linarith, hw, le_refl _⟩
+  · exact ⟨hh, le_refl _, by simp only; linarith, by simp only; linarith⟩
+
+/-- the loop only ever shrinks the shape, and keeps it non-negative -/
+theorem autoShapeLoop_le (fuel : Nat) (h w m : ℚ) (hh : 0 ≤ h) (hw : 0 ≤ w) :
+    0 ≤ (autoShapeLoop fuel h w m).1 ∧ (autoShapeLoop fuel h w m).1 ≤ h ∧
+    0 ≤ (autoShapeLoop fuel h w m).2 ∧ (autoShapeLoop fuel h w m).2 ≤ w := by
+  induction fuel generalizing h w with
+  | zero => simp [autoShapeLoop, hh, hw]
+  | succ n ih =>
+    unfold autoShapeLoop
+    split
+    · obtain ⟨a, b, c, d⟩ := halveLonger_le h w hh hw
+      obtain ⟨e, f, g, k⟩ := ih _ _ a c
+      exact ⟨e, le_trans f b, g, le_trans k d⟩
+    · exact ⟨hh, le_refl _, hw, le_refl _⟩
+
+/-- **The block fits the budget**: when the step bound is not exhausted (`h·w·4 ≤ 2^fuel · m`), the shape the loop
+    returns satisfies `height · width · 4 ≤ maxBytes` -/
+theorem autoShapeLoop_fits (fuel : Nat) (h w m : ℚ) (hfuel : h * w * 4 ≤ 2 ^ fuel * m) :
+    (autoShapeLoop fuel h w m).1 * (autoShapeLoop fuel h w m).2 * 4 ≤ m := by
+  induction fuel generalizing h w with
+  | zero => simpa [autoShapeLoop] using hfuel
+  | succ n ih =>
+    unfold autoShapeLoop
+    split
+    · apply ih
+      rw [halveLonger_area]
+      have : (2 : ℚ) ^ (n + 1) = 2 * 2 ^ n := by ring
+      rw [this] at hfuel
+      linarith
+    · rename_i hnot
+      exact not_lt.mp hnot
+
+/-- a window that fits the budget is one block -/
+theorem autoShapeLoop_whole (fuel : Nat) (h w m : ℚ) (hfit : h * w * 4 ≤ m) : autoShapeLoop fuel h w m = (h, w) := by
+  cases fuel with
+  | zero => rfl
+  | succ n => unfold autoShapeLoop; rw [if_neg (not_lt.mpr hfit)]
+
+theorem rat_ceil_eq_ceil (q : Rat) : q.ceil = ⌈q⌉ := by
+  rw [Rat.ceil_eq_neg_floor_neg]; show -⌊-q⌋ = ⌈q⌉; rw [Int.floor_neg, neg_neg]
+
+/-- **Block lengths are positive and never exceed the window** - the hypotheses `0 < s` of the partition theorems -/
+theorem autoBlockShape_pos (fuel H W : Nat) (m : ℚ) (s : Int × Int) (h : autoBlockShape fuel H W m = some s) :
+    1 ≤ s.1 ∧ s.1 ≤ H ∧ 1 ≤ s.2 ∧ s.2 ≤ W := by
+  unfold autoBlockShape at h
+  simp only at h
+  split at h
+  · cases h
+  · rename_i hn
+    cases h
+    rw [not_or, not_lt, not_lt] at hn
+    obtain ⟨a, b, c, d⟩ := autoShapeLoop_le fuel (H : ℚ) (W : ℚ) m (by positivity) (by positivity)
+    simp only [rat_ceil_eq_ceil]
+    refine ⟨?_, ?_, ?_, ?_⟩
+    · exact Int.one_le_ceil_iff.mpr (by linarith [hn.1])
+    · exact Int.ceil_le.mpr (by exact_mod_cast b)
+    · exact Int.one_le_ceil_iff.mpr (by linarith [hn.2])
+    · exact Int.ceil_le.mpr (by exact_mod_cast d)
+
+
+/-! non-vacuity: 20 x 30 pixels, 600 bytes -> two halvings -> 10 x 15; a budget below one pixel is an error -/
+example : autoBlockShape 50 20 30 600 = some (10, 15) := by decide +kernel
+example : autoBlockShape 50 3 3 1 = none := by decide +kernel
 
 end Homonim
